@@ -900,6 +900,7 @@ def extract() -> dict[str, Any]:
     res["format_fields"] = format_fields(ex, res["names"])
     res["set_fields"] = set_fields(ex)
     res["fixup_assigns"] = fixup_assigns()
+    res["ref_slots"] = fixup_ref_slots(ex, res)
     res["json_field_map"] = json_field_map(ex, res["names"])
     res["json_schemas"] = {c: js for c in sorted(res["names"]) if (js := derived_json_schema(res, c)) is not None}
     res["class_names"] = sorted(ex.classes)
@@ -1219,6 +1220,76 @@ def fixup_assigns() -> list[str]:
     return sorted(out)
 
 
+# reference-carrying slots that the fixup visitor of the class legitimately does not touch, with the reason
+REF_SLOT_EXCEPTIONS = {
+    ("AnyType", "source_any"): "an AnyType contains no TypeInfo/alias reference (TypeFixer.visit_any: nothing to descend into)",
+    ("ExtraAttrs", "attrs"): "ExtraAttrs has no accept(); TypeFixer.visit_instance descends into inst.extra_attrs.attrs itself (checked: Instance row)",
+    ("FuncDef", "dataclass_transform_spec"): "DataclassTransformSpec holds only bools and strings",
+    ("TypeInfo", "dataclass_transform_spec"): "DataclassTransformSpec holds only bools and strings",
+    ("MypyFile", "names"): "build.State.fix_cross_refs calls node_fixer.visit_symbol_table(self.tree.names) (checked in build.py)",
+}
+# classes whose schema is hand-modelled (Types.v): their reference slots, by reading write()/read()
+HAND_REF_SLOTS = {
+    "Instance": ["args", "last_known_value", "extra_attrs", "type"],
+    "SymbolTableNode": ["node", "cross_ref"],
+    # references stored BY NAME (strings in the schema): the fixer must resolve them
+    "TypeAliasType": ["alias"],
+    "TypeInfo": ["mro"],
+}
+
+
+def has_dyn(o: Any) -> bool:
+    if o[0] in ("Dyn", "Nested"):
+        return True
+    return o[0] in ("Opt", "Rep") and any(has_dyn(x) for x in o[1])
+
+
+def fixup_ref_slots(ex: Extractor, res: dict[str, Any]) -> list[tuple[str, list[str], list[str], list[str]]]:
+    """(class, reference-carrying slots from the schema, attributes its fixup visitor method touches, exceptions)"""
+    # class -> visitor method, from `def accept(self, visitor): return visitor.visit_x(self)`
+    accept: dict[str, str] = {}
+    for cls in ex.classes:
+        m = ex.methods.get((cls, "accept"))
+        if m is not None:
+            for c in ast.walk(m):
+                if isinstance(c, ast.Call) and isinstance(c.func, ast.Attribute) and c.func.attr.startswith("visit_") \
+                        and isinstance(c.func.value, ast.Name) and c.func.value.id == "visitor":
+                    accept[cls] = c.func.attr
+    accept.setdefault("TypeInfo", "visit_type_info")          # NodeFixer.visit_type_info is called directly
+    accept["SymbolTableNode"] = "visit_symbol_table"
+    visited: dict[str, set[str]] = {}
+    ftree = ast.parse(vlib.read_repo("mypy/fixup.py"))
+    for c in ftree.body:
+        if isinstance(c, ast.ClassDef) and c.name in ("NodeFixer", "TypeFixer"):
+            for m in c.body:
+                if isinstance(m, ast.FunctionDef) and m.name.startswith("visit_") and len(m.args.args) >= 2:
+                    roots = {m.args.args[1].arg}
+                    if m.name == "visit_symbol_table":
+                        roots = {"value"}
+                    got = visited.setdefault(m.name, set())
+                    for a in ast.walk(m):
+                        if isinstance(a, ast.Attribute) and isinstance(a.value, ast.Name) and a.value.id in roots:
+                            got.add(norm_name(a.attr))
+    if "node_fixer.visit_symbol_table(self.tree.names)" not in vlib.read_repo("mypy/build.py"):
+        raise Unsupported("build.py no longer calls node_fixer.visit_symbol_table(self.tree.names)")
+    rows = []
+    slots_of: dict[str, list[str]] = {k: list(v) for k, v in HAND_REF_SLOTS.items()}
+    for cls, (wn, _) in sorted(res["names"].items()):
+        w, _r = res["schemas"][cls]
+        vals = [o for o in strip(w) if o[0] != "Tag"]
+        if len(vals) != len(wn):
+            raise Unsupported(f"{cls}: cannot align field names with schema ops")
+        slots_of[cls] = slots_of.get(cls, []) + [n for n, o in zip(wn, vals) if has_dyn(o) and not n.startswith("flags:")]
+    for cls in sorted(slots_of):
+        slots = sorted(set(slots_of[cls]))
+        if not slots:
+            continue
+        vis = sorted(visited.get(accept.get(cls, ""), set()))
+        exc = sorted(s_ for (c_, s_) in REF_SLOT_EXCEPTIONS if c_ == cls)
+        rows.append((cls, slots, vis, exc))
+    return rows
+
+
 def set_fields(ex: Extractor) -> list[tuple[str, str, bool, bool]]:
     """(class, field, sorted in write(), sorted in serialize()) for every attribute declared as a set that the
     class serializes: hash-order independence requires every such use to go through sorted(...)"""
@@ -1328,6 +1399,12 @@ def render(res: dict[str, Any]) -> str:
     out.append("Definition fixup_assigns : list string := " + sl(res["fixup_assigns"]) + ".")
     out.append("Definition walk_coverage : list string := " + sl(sorted(WALK_COVERAGE)) + ".")
     out.append("")
+    out.append("(* per class: slots that hold nested types / nodes (may contain TypeInfo or alias references), the attributes the")
+    out.append("   class's NodeFixer / TypeFixer visitor method touches, and the accepted exceptions *)")
+    out.append("Definition ref_slots : list (string * (list string * list string * list string)) := [")
+    out.append(";\n".join(f'  ("{c}"%string, ({sl(a)}, {sl(b)}, {sl(e)}))' for c, a, b, e in res["ref_slots"]))
+    out.append("].")
+    out.append("")
     out.append("(* attributes declared as sets that are serialized: (class, field, sorted in write(), sorted in serialize()) *)")
     out.append("Definition set_fields : list (string * string * (bool * bool)) := [")
     out.append(";\n".join(f'  ("{c}"%string, "{f}"%string, ({str(a).lower()}, {str(b).lower()}))' for c, f, a, b in res["set_fields"]))
@@ -1338,6 +1415,14 @@ def render(res: dict[str, Any]) -> str:
         out.append(f"Definition js_{c} : list (list Z * jop) := [" + "; ".join(f"({zs(k)}, {o})" for k, o in js) + "].")
     out.append("Definition json_schemas : list (string * (op * op * list (list Z * jop))) := [")
     out.append(";\n".join(f'  ("{c}"%string, (w_{c}, r_{c}, js_{c}))' for c in sorted(res["json_schemas"])))
+    out.append("].")
+    out.append("")
+    tagged = [(c, strip(res["schemas"][c][0])[0][1]) for c in sorted(res["json_schemas"])
+              if strip(res["schemas"][c][0]) and strip(res["schemas"][c][0])[0][0] == "Tag" and c in res.get("class_names", [])
+              and strip(res["schemas"][c][0])[-1] == ("Tag", "END_TAG")]
+    out.append("(* object classes with a keyed JSON schema: (binary class tag, (value of the \".class\" key, schema)) *)")
+    out.append("Definition json_classes : list (Z * (list Z * list (list Z * jop))) := [")
+    out.append(";\n".join(f"  ({t}, ({zs(c)}, js_{c}))" for c, t in tagged))
     out.append("].")
     out.append("")
     out.append("(* JSON keys written by serialize() and read by deserialize() *)")
